@@ -1,10 +1,193 @@
-(* Property C02 -- theorems only (placeholder during bring-up; replaced below). *)
+(* Property C02 -- theorems only.  Each is closed by `exact <lemma>` and followed by Print Assumptions.
+   They talk about coq/BTreeModel.v, the executable model of momo::TreeSet (TreeSet.h) whose split index and
+   leaf-capacity arithmetic are the cxx2coq translations Gen_TreeNode.v / Gen_Node.v (regenerated from /repo on
+   every run) and which is run against the real TreeSet/TreeMap on every run (T-cor).
+   twf t      = the WF invariant: uniform depth, |children| = |items|+1 for internal nodes, count <= capacity <=
+                maxCapacity, empty nodes allowed, and mCount = number of items;
+   contents t = the in-order flattening;  sorted multi = non-decreasing (multi) / strictly increasing (unique);
+   iter_index t it = number of items before position it (= distance from begin).
+   All statements hold for every 1 <= maxCapacity <= 255, every capacityStep, blockCount, search strategy. *)
 From Coq Require Import ZArith List.
-From C02 Require Import BTreeModel.
+From C02 Require Import BTreeModel BTreeParams BTreeBase BTreeSearch BTreeIter BTreeAdd BTreeTop BTreeHist.
 Import ListNotations.
+Local Open Scope Z_scope.
 
+(* T-gen leaf: TreeNode::GetSplitItemIndex(count, newIndex) < count, so pvSplitNode always has a separator
+   (this is also the MOMO_ASSERT(splitItemIndex < itemCount) of the source, now a proved fact). *)
+Theorem C02_split_index_in_range :
+  forall c j : nat, (0 < c)%nat -> (c <= 255)%nat -> (j <= c)%nat -> (split_index c j < c)%nat.
+Proof. exact split_index_lt. Qed.
+Print Assumptions C02_split_index_in_range.
 
+(* T-gen leaves: a leaf created by Node::Create for `count` items (pvGetLeafMemPoolIndex + GetCapacity) has
+   count <= capacity, 0 < capacity <= maxCapacity, whatever capacityStep / blockCount / allocated internal nodes. *)
+Theorem C02_leaf_capacity_fits :
+  forall maxCap stepRaw blockCount ic c : nat,
+    (0 < maxCap)%nat -> (maxCap <= 255)%nat -> (c <= maxCap)%nat ->
+    (c <= leaf_cap maxCap stepRaw blockCount ic c /\ 0 < leaf_cap maxCap stepRaw blockCount ic c <= maxCap)%nat.
+Proof. exact leaf_cap_bounds. Qed.
+Print Assumptions C02_leaf_capacity_fits.
 
-Theorem C02_bringup : forall (l : list Z), interleave [] l = l.
-Proof. exact (fun l => eq_refl). Qed.
-Print Assumptions C02_bringup.
+(* pvFindFirst inside a node: linear and binary search both return the first index whose item satisfies a
+   monotone predicate. *)
+Theorem C02_node_search_is_first_true :
+  forall (linear : bool) (P : Z -> bool) (ks : list Z), mono P ks -> search linear P ks = first_true P ks.
+Proof. exact search_correct. Qed.
+Print Assumptions C02_node_search_is_first_true.
+
+(* GetLowerBound: the returned iterator is a normalised position whose index i splits the sequence into
+   keys < k and keys >= k (first not less). *)
+Theorem C02_lower_bound_is_first_not_less :
+  forall (maxCap : nat) (linear multi : bool), (1 <= maxCap <= 255)%nat ->
+  forall (t : tree) (k : Z), twf maxCap t -> sorted multi (contents t) ->
+    let i := iter_index t (lower_bound linear t k) in
+    norm t (lower_bound linear t k) /\ (i <= length (contents t))%nat /\
+    Forall (fun x => x < k) (firstn i (contents t)) /\ Forall (fun x => k <= x) (skipn i (contents t)).
+Proof. exact lower_bound_is_first_not_less. Qed.
+Print Assumptions C02_lower_bound_is_first_not_less.
+
+(* GetUpperBound: first greater. *)
+Theorem C02_upper_bound_is_first_greater :
+  forall (maxCap : nat) (linear multi : bool), (1 <= maxCap <= 255)%nat ->
+  forall (t : tree) (k : Z), twf maxCap t -> sorted multi (contents t) ->
+    let i := iter_index t (upper_bound linear t k) in
+    norm t (upper_bound linear t k) /\ (i <= length (contents t))%nat /\
+    Forall (fun x => x <= k) (firstn i (contents t)) /\ Forall (fun x => k < x) (skipn i (contents t)).
+Proof. exact upper_bound_is_first_greater. Qed.
+Print Assumptions C02_upper_bound_is_first_greater.
+
+(* ContainsKey agrees with membership in the flattened sequence; Find returns the lower bound when the key is
+   present and end otherwise. *)
+Theorem C02_contains_iff_member :
+  forall (maxCap : nat) (linear multi : bool), (1 <= maxCap <= 255)%nat ->
+  forall (t : tree) (k : Z), twf maxCap t -> sorted multi (contents t) ->
+    (contains linear t k = true <-> In k (contents t)).
+Proof. exact contains_spec. Qed.
+Print Assumptions C02_contains_iff_member.
+
+Theorem C02_find_position :
+  forall (maxCap : nat) (linear multi : bool), (1 <= maxCap <= 255)%nat ->
+  forall (t : tree) (k : Z), twf maxCap t -> sorted multi (contents t) ->
+    iter_index t (find linear t k) = if contains linear t k then lb_index (contents t) k else length (contents t).
+Proof. exact find_spec. Qed.
+Print Assumptions C02_find_position.
+
+(* pvAdd(iter, x) for ANY valid position (hinted Add): WF is preserved through in-leaf insertion, pvAddGrow and the
+   whole pvAddSplit cascade; the sequence becomes (items before iter) ++ x :: (items from iter on); the returned
+   position holds x and has the index of iter. *)
+Theorem C02_add_inserts_before_position :
+  forall maxCap stepRaw blockCount : nat, (1 <= maxCap <= 255)%nat ->
+  forall (t : tree) (it : iter) (x : Z), twf maxCap t -> tvalid t it ->
+    let '(t', pos) := add maxCap stepRaw blockCount t it x in
+    twf maxCap t' /\
+    contents t' = firstn (iter_index t it) (contents t) ++ x :: skipn (iter_index t it) (contents t) /\
+    tvalid t' pos /\ titem t' pos /\ deref t' pos = Some x /\ iter_index t' pos = iter_index t it.
+Proof. exact add_spec. Qed.
+Print Assumptions C02_add_inserts_before_position.
+
+(* Insert(key): refines the list-level specification (insert at the upper bound; for unique keys return the
+   existing equivalent item and do not insert), including the index of the returned iterator and the flag. *)
+Theorem C02_insert_refines :
+  forall (maxCap stepRaw blockCount : nat) (linear multi : bool), (1 <= maxCap <= 255)%nat ->
+  forall (t : tree) (k : Z), twf maxCap t -> sorted multi (contents t) ->
+    let '(t', pos, ins) := insert maxCap stepRaw blockCount linear multi t k in
+    twf maxCap t' /\ (contents t', iter_index t' pos, ins) = spec_insert multi (contents t) k /\
+    tvalid t' pos /\ titem t' pos.
+Proof. exact insert_refines. Qed.
+Print Assumptions C02_insert_refines.
+
+Theorem C02_insert_keeps_wf_sorted_count :
+  forall (maxCap stepRaw blockCount : nat) (linear multi : bool), (1 <= maxCap <= 255)%nat ->
+  forall (t : tree) (k : Z), twf maxCap t -> sorted multi (contents t) ->
+    let t' := fst (fst (insert maxCap stepRaw blockCount linear multi t k)) in
+    twf maxCap t' /\ sorted multi (contents t') /\ cnt t' = length (contents t').
+Proof. exact insert_keeps_wf_sorted_count. Qed.
+Print Assumptions C02_insert_keeps_wf_sorted_count.
+
+(* insert_multi_stable: in a multi container the new key is placed after every key <= it (so equivalent keys keep
+   insertion order), and the returned iterator denotes exactly that index and holds the key. *)
+Theorem C02_insert_multi_stable :
+  forall (maxCap stepRaw blockCount : nat) (linear multi : bool), (1 <= maxCap <= 255)%nat ->
+  forall (t : tree) (k : Z), multi = true -> twf maxCap t -> sorted multi (contents t) ->
+    let '(t', pos, ins) := insert maxCap stepRaw blockCount linear multi t k in
+    ins = true /\ exists a b, contents t = a ++ b /\ contents t' = a ++ k :: b /\
+      Forall (fun x => x <= k) a /\ Forall (fun x => k < x) b /\ iter_index t' pos = length a /\ deref t' pos = Some k.
+Proof. exact insert_multi_stable. Qed.
+Print Assumptions C02_insert_multi_stable.
+
+(* iterators: GetBegin has index 0; operator++ on a position that holds an item gives index+1 (through pvMove's
+   climbing over empty leaves and exhausted subtrees); operator-- gives index-1; the n-th increment from begin is
+   the position of index n. *)
+Theorem C02_begin_is_index_zero :
+  forall maxCap : nat, (1 <= maxCap <= 255)%nat -> forall t : tree, twf maxCap t ->
+    norm t (begin_iter t) /\ iter_index t (begin_iter t) = 0%nat.
+Proof. exact begin_spec. Qed.
+Print Assumptions C02_begin_is_index_zero.
+
+Theorem C02_iterator_successor :
+  forall maxCap : nat, (1 <= maxCap <= 255)%nat -> forall (t : tree) (it : iter),
+    twf maxCap t -> tvalid t it -> titem t it ->
+    norm t (next t it) /\ iter_index t (next t it) = S (iter_index t it).
+Proof. exact next_spec. Qed.
+Print Assumptions C02_iterator_successor.
+
+Theorem C02_iterator_predecessor :
+  forall maxCap : nat, (1 <= maxCap <= 255)%nat -> forall (t : tree) (it : iter),
+    twf maxCap t -> tvalid t it -> (0 < iter_index t it)%nat ->
+    tvalid t (prev t it) /\ titem t (prev t it) /\ S (iter_index t (prev t it)) = iter_index t it.
+Proof. exact prev_spec. Qed.
+Print Assumptions C02_iterator_predecessor.
+
+Theorem C02_nth_increment_is_index_n :
+  forall maxCap : nat, (1 <= maxCap <= 255)%nat -> forall t : tree, twf maxCap t ->
+  forall n : nat, (n <= length (contents t))%nat -> norm t (nth_iter t n) /\ iter_index t (nth_iter t n) = n.
+Proof. exact nth_iter_spec. Qed.
+Print Assumptions C02_nth_increment_is_index_n.
+
+(* a position that holds an item is determined by its index (two iterators with equal distance from begin are
+   equal as (node, itemIndex) pairs) *)
+Theorem C02_position_determined_by_index :
+  forall maxCap : nat, (1 <= maxCap <= 255)%nat -> forall (t : tree) (a b : iter),
+    twf maxCap t -> norm t a -> norm t b -> iter_index t a = iter_index t b -> a = b.
+Proof. exact norm_unique. Qed.
+Print Assumptions C02_position_determined_by_index.
+
+(* forward traversal (begin, ++ until end) yields the flattened sequence, backward traversal (end, -- until
+   begin) yields its reverse; mCount is its length. *)
+Theorem C02_forward_traversal_is_contents :
+  forall maxCap : nat, (1 <= maxCap <= 255)%nat -> forall t : tree, twf maxCap t -> traverse_fwd t = contents t.
+Proof. exact traverse_fwd_spec. Qed.
+Print Assumptions C02_forward_traversal_is_contents.
+
+Theorem C02_backward_traversal_is_reverse :
+  forall maxCap : nat, (1 <= maxCap <= 255)%nat -> forall t : tree, twf maxCap t -> traverse_bwd t = rev (contents t).
+Proof. exact traverse_bwd_spec. Qed.
+Print Assumptions C02_backward_traversal_is_reverse.
+
+Theorem C02_count_is_length :
+  forall maxCap : nat, (1 <= maxCap <= 255)%nat -> forall t : tree, twf maxCap t -> cnt t = length (contents t).
+Proof. exact count_is_length. Qed.
+Print Assumptions C02_count_is_length.
+
+(* lifted over ALL finite histories of Insert / Clear from the empty container: the state is WF, sorted
+   (non-decreasing / strictly increasing) and equals the reference sequence computed by the list-level spec. *)
+Theorem C02_history_refines_partial :
+  forall (maxCap stepRaw blockCount : nat) (linear multi : bool), (1 <= maxCap <= 255)%nat ->
+  forall ops : list op,
+    let t := fold_left (step maxCap stepRaw blockCount linear multi) ops empty_tree in
+    twf maxCap t /\ sorted multi (contents t) /\ contents t = fold_left (spec_step multi) ops [].
+Proof. exact history_refines. Qed.
+Print Assumptions C02_history_refines_partial.
+
+(* the list-level specification itself keeps the order *)
+Theorem C02_spec_insert_sorted :
+  forall (multi : bool) (l : list Z) (k : Z), sorted multi l -> sorted multi (fst (fst (spec_insert multi l k))).
+Proof. exact spec_insert_sorted. Qed.
+Print Assumptions C02_spec_insert_sorted.
+
+(* non-vacuity: a concrete reachable state (maxCapacity 2, ten insertions with duplicates) has height 2 *)
+Theorem C02_nonvacuous_example :
+  let t := fold_left (step 2 1 8 false true) example_ops empty_tree in
+  contents t = [1; 2; 3; 3; 3; 5; 6; 7; 8; 9] /\ option_map height (root t) = Some 2%nat /\ cnt t = 10%nat.
+Proof. exact example_nonvacuous. Qed.
+Print Assumptions C02_nonvacuous_example.
